@@ -20,7 +20,7 @@ TRACE_CFG = """SPECIFICATION Spec
 POSTCONDITION Accepted
 CHECK_DEADLOCK FALSE
 """
-CLAUSES = ("ArgsUnchanged", "ArgsUnchangedAfterResultMutation", "Recomputable")
+CLAUSES = ("ArgsUnchanged", "ArgsUnchangedAfterResultMutation", "Recomputable", "RecomputedSame")
 
 
 def jsonable(x):
@@ -103,12 +103,16 @@ def worker(task):
     elif kind == "pair":
         a, b = payload
         evs.append(frame_event(tid + "-diffnb", "diff_notebooks", diff_notebooks, [a, b]))
-        d = diff_notebooks(a, b)
-        evs.append(frame_event(tid + "-patchnb", "patch_notebook", patch_notebook, [a, d]))
-        cfg = lambda: PrettyPrintConfig(out=io.StringIO(), use_color=False)  # noqa
-        evs.append(frame_event(tid + "-ppnb", "pretty_print_notebook", lambda nb: pretty_print_notebook(nb, cfg()), [b], False))
-        evs.append(frame_event(tid + "-ppdiff", "pretty_print_notebook_diff",
-                               lambda x, y: pretty_print_notebook_diff("a", "b", x, y, cfg()), [a, d], False))
+        try:
+            # (if the differ fails here, after an earlier result was modified, the event above already says so)
+            d = diff_notebooks(a, b)
+            evs.append(frame_event(tid + "-patchnb", "patch_notebook", patch_notebook, [a, d]))
+            cfg = lambda: PrettyPrintConfig(out=io.StringIO(), use_color=False)  # noqa
+            evs.append(frame_event(tid + "-ppnb", "pretty_print_notebook", lambda nb: pretty_print_notebook(nb, cfg()), [b], False))
+            evs.append(frame_event(tid + "-ppdiff", "pretty_print_notebook_diff",
+                                   lambda x, y: pretty_print_notebook_diff("a", "b", x, y, cfg()), [a, d], False))
+        except Exception:
+            pass
     else:
         b, l, r, strat = payload
         args = mergedrv.strategy_args(*strat)
